@@ -663,7 +663,7 @@ def subintervalise(x_: Interval, n: Union[int, tuple] = 0) -> Interval:
     d = len(x.shape)  # dimension of the array
     if n in (0, 1):
         n = 1  # no subdivision: the subtiling is the single tile x itself
-    if x.scalar:  # or x.scalar == True
+    if x.unsized:  # strict-sense scalar; a sized (1,) interval is a vector of dimension 1
         xx = linspace(x.lo, x.hi, num=n + 1)
         return intervalise(vstack([xx[:-1], xx[1:]]))
     elif d == 1:  # x.shape = (m,)
